@@ -61,7 +61,7 @@ meta.update({
                       "demo_tail_with_change": r1.stdout.strip().splitlines()[-3:]},
     "checks_reporting": sorted(set(viol)), "analysis_errors": sorted(set(errs)),
     "rule_reports": lines[:12],
-    "detected": bool(viol) or bool(errs),
+    "detected": bool(viol),
 })
 json.dump(meta, open(f"{d}/meta.json", "w"), indent=1)
 print("CONFIRMED" if ok else "NOT CONFIRMED", "| DETECTED" if meta["detected"] else "| MISSED")
